@@ -385,7 +385,7 @@ func c13(c *core.Ctx) {
 		// peer constructor role
 		var getPeer, peerFromReq *ssa.Function
 		for _, fn := range p.LibFuncs("httpgrpc") {
-			if fn.Parent() != nil || fn.Signature.Results().Len() != 1 || core.TypeStr(fn.Signature.Results().At(0).Type()) != "*"+peerPkg+".Peer" {
+			if fn.Parent() != nil || fn.Signature.Results().Len() != 1 || strings.TrimPrefix(core.TypeStr(fn.Signature.Results().At(0).Type()), "*") != peerPkg+".Peer" {
 				continue
 			}
 			if len(fn.Params) == 2 && (core.TypeStr(fn.Params[1].Type()) == "*crypto/tls.ConnectionState" || core.TypeStr(fn.Params[1].Type()) == "*net/http.Response") {
@@ -593,10 +593,7 @@ func c13(c *core.Ctx) {
 							if !core.InfoOf(&call.Call).Is(peerPkg + ".NewContext") {
 								return false
 							}
-							return core.OriginIs(call.Call.Args[1], func(o ssa.Value) bool {
-								cr, _, ok := core.CallResult(o)
-								return ok && core.InfoOf(&cr.Call).Static == peerFromReq
-							})
+							return isResultOfFn(call.Call.Args[1], peerFromReq)
 						}) {
 							ok = true
 						}
@@ -613,10 +610,7 @@ func c13(c *core.Ctx) {
 						ncs = append(ncs, core.CallsIn(f, func(_ *ssa.Call, ci core.CallInfo) bool { return ci.Is(peerPkg + ".NewContext") })...)
 					}
 					for _, call := range ncs {
-						if core.OriginIs(call.Call.Args[1], func(o ssa.Value) bool {
-							cr, _, ok := core.CallResult(o)
-							return ok && core.InfoOf(&cr.Call).Static == peerFromReq
-						}) {
+						if isResultOfFn(call.Call.Args[1], peerFromReq) {
 							ok = true
 						}
 					}
@@ -804,4 +798,31 @@ func isBoundValue(v ssa.Value) bool {
 		return core.InlineSite[x.Parent()] != nil
 	}
 	return false
+}
+
+// isResultOfFn: v is what fn returned: its call result, or the address of a
+// local that holds nothing but its call result (a value result whose address
+// is handed on).
+func isResultOfFn(v ssa.Value, fn *ssa.Function) bool {
+	isRes := func(o ssa.Value) bool {
+		cr, _, ok := core.CallResult(o)
+		return ok && core.InfoOf(&cr.Call).Static == fn
+	}
+	if core.OriginIs(v, isRes) {
+		return true
+	}
+	al, ok := core.ResolveFree(core.Strip(v)).(*ssa.Alloc)
+	if !ok {
+		return false
+	}
+	sts := core.StoresTo(al)
+	if len(sts) == 0 {
+		return false
+	}
+	for _, st := range sts {
+		if !core.OriginIs(st.Val, isRes) {
+			return false
+		}
+	}
+	return true
 }
